@@ -37,13 +37,13 @@ func metaBlock(payload []byte, mode meta.FinalMode) []byte {
 }
 
 type idxOpts struct {
-	BackSize   int64
-	TotalsDC   int64 // delta added to the total compressed size field
-	TotalsDR   int64
-	BadCRC     bool
-	NumRecsD   int64 // delta added to the record count field
-	Mode       meta.FinalMode
-	Trailing   []byte // extra payload bytes before the CRC
+	BackSize int64
+	TotalsDC int64 // delta added to the total compressed size field
+	TotalsDR int64
+	BadCRC   bool
+	NumRecsD int64 // delta added to the record count field
+	Mode     meta.FinalMode
+	Trailing []byte // extra payload bytes before the CRC
 }
 
 func buildIndex(chunks []xchunk, o idxOpts) []byte {
